@@ -327,7 +327,48 @@ def check_index(graph, phase, pick, n_queries=12):
             out.append(V("C16", "lookup-duplicate", "a lookup returned the same test twice", phase=phase, query=q))
         if (q in graph.nodes_index) != bool(got_nodes):
             out.append(V("C16", "membership-mismatch", "a membership query disagrees with the lookup", phase=phase, query=q))
+    out += check_reindexed(nodes, names, queries, phase, pick)
     return dedup(out)
+
+
+def check_reindexed(nodes, names, queries, phase, pick):
+    """Insertion order: the same tests inserted into a fresh index in a permuted order answer the same."""
+    from avocado_i2n.cartgraph.node import PrefixTree
+    out = []
+    order = list(range(len(nodes)))
+    mode = pick("reorder", 3)
+    if mode == 0:
+        order.reverse()
+    elif mode == 1:
+        # longest names first: expanded tests before the flat tests they were expanded from
+        order.sort(key=lambda i: (-len(names[i].split(".")), names[i]))
+    else:
+        for i in range(len(order) - 1, 0, -1):
+            j = pick(f"shuffle{i}", i + 1)
+            order[i], order[j] = order[j], order[i]
+    tree = PrefixTree()
+    for i in order:
+        tree.insert(nodes[i])
+    # every test is found by its own full name and by the queries, as in the naive scan
+    own = [names[pick(f"own{k}", len(names))] for k in range(4)]
+    for q in queries + own:
+        qv = q.split(".")
+        if any(sum(1 for j in range(len(v) - len(qv) + 1) if v[j:j + len(qv)] == qv) > 1
+               for v in (name.split(".") for name in names)):
+            continue
+        want_names = sorted({names[i] for i in naive_lookup(names, q)})
+        got_nodes = tree.get(q)
+        got_names = sorted({n.params["name"] for n in got_nodes})
+        if want_names != got_names:
+            out.append(V("C16", "lookup-depends-on-insertion-order",
+                         "the same tests inserted in another order are not found by a partial name exactly when they contain it",
+                         phase=phase, query=q, missing=[short_class(n) for n in sorted(set(want_names) - set(got_names))][:4],
+                         extra=[short_class(n) for n in sorted(set(got_names) - set(want_names))][:4]))
+        if len(got_nodes) != len({id(g) for g in got_nodes}):
+            out.append(V("C16", "lookup-duplicate", "a lookup returned the same test twice", phase=phase, query=q))
+        if (q in tree) != bool(got_nodes):
+            out.append(V("C16", "membership-mismatch", "a membership query disagrees with the lookup", phase=phase, query=q))
+    return out
 
 
 class RegisterShadow:
